@@ -25,10 +25,7 @@ func extraSpecs(tier string) []extraSpec {
 		{Name: "c13wide3", MinF: 6, MaxF: 14, Structs: 4},
 		{Name: "c13wide4", MinF: 12, MaxF: 30, Structs: 2},
 	}
-	if tier == "thorough" {
-		return all
-	}
-	return all[:2]
+	return all // same packages in both tiers; the tiers differ in the number of repeats
 }
 
 var fieldWords = []string{"alpha", "beta", "gamma", "delta", "epsilon", "zeta", "eta", "theta", "iota", "kappa", "lambda", "mu", "nu", "xi",
@@ -37,7 +34,7 @@ var fieldWords = []string{"alpha", "beta", "gamma", "delta", "epsilon", "zeta", 
 
 // field types every derived instance used below can be summoned for
 var wideTypes = []string{"string", "int", "bool", "float64", "[]int", "[]string", "fp.Option[string]", "fp.Option[int]", "map[string]int",
-	"*int", "time.Time", "fp.Seq[int]", "fp.Tuple2[string, int]", "int64", "uint32", "Inner", "fp.Option[Inner]", "[]Inner"}
+	"*int", "time.Time", "fp.Seq[int]", "int64", "uint32", "Inner", "fp.Option[Inner]", "[]Inner"}
 
 var flatTypes = []string{"string", "int", "float64"}
 
